@@ -4,7 +4,7 @@ proof:   EpsieProps/C13.lean over EpsieModel/Adapt.lean + the clock of EpsieMode
          (C13_gain_pos_at, C13_gain_pos_veitch, C13_veitch_dir, C13_ss_dir,
          C13_ss_narrows, C13_ss_widens_within_cap, C13_ss_sustained_reject, C13_at_dir, C13_eig_dir, C13_vmf_dir, the *_sustained_*
          theorems, C13_window_exact, C13_one_update_per_clock_tick, C13_frozen_after_window,
-         C13_fixed_kernel, C13_own_history_only, ...)
+         C13_fixed_kernel, C13_own_history_only, C13_reset_restarts_window, ...)
 tie:     suite `adapt` (harness/adapt.py + lean/DriverAdapt.lean): all 16 adaptive classes and
          their sub-variants under forced and free histories, start steps, jump intervals,
          windows 10-60; which steps change the scale, in which direction (exact), values 1e-9.
@@ -22,7 +22,11 @@ search:  forced always-accepted / always-rejected / alternating / random / long-
          interval, no change without a jump, no dependence on another chain's history; in the runs
          with a jump interval > 1 (and a quarter of the others) the proposal's own state is written
          back with set_state once inside and once after the window (a checkpoint is part of a
-         chain's own history): the scale attributes must not change and the oracle stays the same
+         chain's own history): the scale attributes must not change and the oracle stays the same;
+         a third of the runs (and of the correspondence cases, `reset` line of the driver) call
+         Chain.reset_proposals() once or twice (tens of steps in, and later): the adaptation restarts from
+         the initial scale, the window and the Sivia-Skilling count are measured from
+         start_step = max(nsteps, 1) (C13_reset_restarts_window) and the oracle applies from there on
 """
 import json
 
